@@ -27,7 +27,7 @@ REQUIRED = {'mon:evaluate.checked': 50, 'mon:evaluate_at.checked': 50, 'mon:eval
             'mon:get_truth_table.checked': 20, 'mon:get_gates_truth_table.checked': 20,
             'tables:operators': 1, 'tables:synthesis': 1, 'tables:arith': 1, 'tables:pattern': 1,
             'tables:tseytin': 1, 'tables:converters': 1, 'tables:format_parse': 1, 'tables:fix_gate_type': 16, 'twin_checked': 20,
-            'edited_circuits': 20, 'library_circuits': 50}
+            'edited_circuits': 20, 'library_circuits': 50, 'requeried_after_edit': 10}
 EXHAUSTIVE_WHEN = {}
 
 OPS16_NAMES = ['ALWAYS_FALSE', 'ALWAYS_TRUE', 'LNOT', 'LIFF', 'RNOT', 'RIFF', 'OR', 'NOR', 'AND', 'NAND', 'XOR', 'NXOR', 'GT', 'LT',
@@ -347,7 +347,13 @@ def check_case(case, ctx):
     if case.get('edits', True):
         try:
             with monitor.suspended():
-                ec = netgen.build(net, rng=rng)
+                # half of the time the object that was just queried is edited and queried again (answers must follow
+                # the object's current state), otherwise a fresh object
+                if rng.random() < 0.5:
+                    ec = c
+                    ctx.count('requeried_after_edit')
+                else:
+                    ec = netgen.build(net, rng=rng)
                 edits = netgen.random_edits(ec, rng)
                 enet = refsem.net_of(ec)
             CUR['case'] = dict(case, edits_applied=edits)
